@@ -198,7 +198,9 @@ func (c *Ctx) checkTryPredicates(info *types.Info, fd *ast.FuncDecl, prefix stri
 				okIdx = false
 				return true
 			}
-			if v, isC := constInt(info, b.Y); !isC || v != 1 {
+			vy, isCy := constInt(info, b.Y)
+			vx, isCx := constInt(info, b.X)
+			if !((isCy && vy == 1) || (isCx && vx == 1)) {
 				okIdx = false
 			}
 			return true
